@@ -45,7 +45,7 @@ theorem goodOut_congr {p q : P} {e : Option Err} (h1 : q.evs = p.evs) (h2 : q.fa
   · exact Or.inr ⟨he, stopped_congr h1 h2 h⟩
 
 /-- the visitor call itself -/
-theorem visit_good (p : P) (e : Ev) (h : NoFault p) :
+theorem visit_goodOut (p : P) (e : Ev) (h : NoFault p) :
     ((visit p e).2 = none ∧ NoFault (visit p e).1) ∨ ((visit p e).2 = some .visitor ∧ Stopped (visit p e).1) := by
   unfold visit
   cases hf : p.failAt with
@@ -78,13 +78,13 @@ set_option hygiene false in
 returned the injected error and delivery is `Stopped` -/
 macro "visit_fault " X:term:max e:term:max h:term:max : tactic =>
   `(tactic| (rcases hvis : visit $X $e with ⟨q, err⟩
-             have hv := visit_good $X $e $h
+             have hv := visit_goodOut $X $e $h
              rw [hvis] at hv
              rcases hv with ⟨h1, hq⟩ | ⟨h1, hq⟩ <;> simp only at h1 hq <;> subst h1 <;> simp only []))
 
 theorem stopped_good {q : P} (h : Stopped q) : GoodOut q (some .visitor) := Or.inr ⟨rfl, h⟩
 
-theorem visitAll_good (p : P) (es : List Ev) (h : NoFault p) :
+theorem visitAll_goodOut (p : P) (es : List Ev) (h : NoFault p) :
     GoodOut (visitAll p es).1 (visitAll p es).2 ∧ ((visitAll p es).2 = none ∨ (visitAll p es).2 = some .visitor) := by
   induction es generalizing p with
   | nil => exact ⟨good_of_noFault h (by simp [visitAll]), Or.inl rfl⟩
@@ -296,7 +296,7 @@ theorem stepBytesGo_good (p : P) (b : Bytes) (h : NoFault p) :
   simp only []
   have hva : ∀ (X : P) (es : List Ev) (q : P) (r : Option Err), NoFault X → visitAll X es = (q, r) →
       GoodOut q r ∧ (r = none ∨ r = some .visitor) := by
-    intro X es q r hX hh; have := visitAll_good X es hX; rw [hh] at this; exact this
+    intro X es q r hX hh; have := visitAll_goodOut X es hX; rw [hh] at this; exact this
   have hp' : NoFault (if b.length ≥ p.length.current.toNat then p
       else decLen p ↑(if b.length ≥ p.length.current.toNat then p.length.current.toNat else b.length)) := by
     split
@@ -320,7 +320,7 @@ theorem stepBytesGo_good (p : P) (b : Bytes) (h : NoFault p) :
       · simp at he
     split
     · rcases hvis2 : visit q Ev.arrEnd with ⟨q2, err2⟩
-      have hv2 := visit_good q Ev.arrEnd hq
+      have hv2 := visit_goodOut q Ev.arrEnd hq
       rw [hvis2] at hv2
       rcases hv2 with ⟨h2, hq2⟩ | ⟨h2, hq2⟩ <;> simp only at h2 hq2 <;> subst h2 <;> simp only []
       · simp only [popStateR]; exact popState_good _ _ (noFault_congr (by simp) (by simp) hq2)
@@ -454,7 +454,7 @@ theorem execStep_good (p : P) (b : Bytes) (h : NoFault p) (herr : p.err ≠ some
     split
     · visit_fault p (Ev.arrStart 0 BT.byte) h
       · rcases hvis2 : visit q Ev.arrEnd with ⟨q2, err2⟩
-        have hv2 := visit_good q Ev.arrEnd hq
+        have hv2 := visit_goodOut q Ev.arrEnd hq
         rw [hvis2] at hv2
         rcases hv2 with ⟨h2, hq2⟩ | ⟨h2, hq2⟩ <;> simp only at h2 hq2 <;> subst h2 <;> simp only []
         · simp only [popStateR]; exact popState_good _ _ (noFault_congr (by simp) (by simp) hq2)
